@@ -247,6 +247,34 @@ def scenario_cases(seed, tier):
             "alts": [{"label": "after a program with Sin in the loop body (exact_func_moments on)", "hashseed": 0, "jobs": [jA, jB], "pick": ["job", 1]},
                      {"label": "after a program without functional assignments", "hashseed": 0, "jobs": [jC, jB], "pick": ["job", 1]}]},
             "features": ["scenario:exact-func-moments-flag"], "text": jB["text"]})
+        # (v) the same branch condition text over a variable whose finite type differs between the programs
+        w1, w2 = r.sample([[0, 1], [0, 1, 2], [1, 2, 3], [0, 1, 3]], 2)
+        tv = r.choice(sorted(set(w1) & set(w2)))
+        def cond_prog(vals):
+            pr = f"1/{len(vals)}"
+            ch = " ".join(f"{v} {{{pr}}}" for v in vals[:-1]) + f" {vals[-1]}"
+            return f"x = {vals[0]}\ny = 0\nwhile true:\n    x = {ch}\n    if x == {tv}:\n        y = y + 1\n    end\nend\n"
+        cA = {"id": "A-cond", "text": cond_prog(w1), "goals": [{"y": 1}, {"x": 1, "y": 1}], "settings": {}, "N": 3, "values": {}, "source_vars": ["x", "y"]}
+        cB = {"id": "B-cond", "text": cond_prog(w2), "goals": [{"y": 1}, {"x": 1, "y": 1}], "settings": {}, "N": 3, "values": {}, "source_vars": ["x", "y"]}
+        out.append({"id": f"scn-cond-{cs}", "scenario": {
+            "ref": {"jobs": [cB], "pick": ["job", 0]},
+            "alts": [{"label": f"after a program branching on x == {tv} where x has values {w1}", "hashseed": 0, "jobs": [cA, cB], "pick": ["job", 1]},
+                     {"label": "the same, cond2arithm histories, PYTHONHASHSEED=3", "hashseed": 3, "jobs": [dict(cA, settings={"cond2arithm": True}), cA, cB], "pick": ["job", 2]}]},
+            "features": ["scenario:same-condition-different-finite-type"], "text": cB["text"]})
+        # (vi) the same Sin/Cos/Exp moment requested in rounded mode and in exact mode within one process (both orders)
+        fn2 = r.choice(["Cos", "Sin", "Exp"])
+        dist = r.choice(["Normal(0, 1)", "Uniform(0, 1)", "Normal(1, 4)"])
+        ftext = f"x = 0\ny = 0\ns = 0\nwhile true:\n    x = {dist}\n    y = {fn2}(x)\n    s = s + y\nend\n"
+        fE = {"id": "func-exact", "text": ftext, "goals": [{"y": 1}, {"s": 1}], "settings": {"exact_func_moments": True}, "N": 2, "values": {}, "source_vars": ["x", "y", "s"]}
+        fR = {"id": "func-rounded", "text": ftext, "goals": [{"y": 1}, {"s": 1}], "settings": {"exact_func_moments": False}, "N": 2, "values": {}, "source_vars": ["x", "y", "s"]}
+        out.append({"id": f"scn-funcmode-a-{cs}", "scenario": {
+            "ref": {"jobs": [fE], "pick": ["job", 0]},
+            "alts": [{"label": "exact mode after the same program in rounded mode", "hashseed": 0, "jobs": [fR, fE], "pick": ["job", 1]}]},
+            "features": ["scenario:func-moment-mode-switch"], "text": ftext})
+        out.append({"id": f"scn-funcmode-b-{cs}", "scenario": {
+            "ref": {"jobs": [fR], "pick": ["job", 0]},
+            "alts": [{"label": "rounded mode after the same program in exact mode", "hashseed": 0, "jobs": [fE, fR], "pick": ["job", 1]}]},
+            "features": ["scenario:func-moment-mode-switch"], "text": ftext})
     return out
 
 
